@@ -97,7 +97,7 @@ class Ctx:
             # rule self-test on a scratch copy: print machine-readable keys, never touch reports/evidence of /repo
             for v in self.violations:
                 kind = "known" if known.get((self.prop, v["key"])) is not None else "new"
-                print("SELFTEST-KEY %s %s %s" % (self.prop, v["key"], kind))
+                print("SELFTEST-KEY\t%s\t%s\t%s" % (self.prop, v["key"], kind))
             return 0
         rep_dir = os.path.join(VERIF, "reports", self.prop)
         os.makedirs(rep_dir, exist_ok=True)
